@@ -131,6 +131,7 @@ def specStep (s : SpecSt) : ArgsOp → SpecSt × SpecOut
   | .slice lo hi => (s, .slice (specSlice s.1 lo hi))
   | .str => (s, .string (s.1.map fun o => ser o.e).flatten)
   | .extendSlice lo hi => ((s.1 ++ specSlice s.1 lo hi, s.2), .none)
+  | .extendSelf => ((s.1 ++ s.1, s.2), .none)
 
 def specRun (s : SpecSt) : List ArgsOp → SpecSt × List SpecOut
   | [] => (s, [])
